@@ -207,4 +207,16 @@ PROPS = {
         'level_note': 'Equality of trees is by exact skeleton hash (node kinds + Locate of every node), per-leaf origin hash and define table with origins.',
         'design_ref': '5 / C20',
     },
+    'C12': {
+        'title': 'trivia neutrality',
+        'rule': 'one case = a pair (original, re-laid-out) with identical token sequences: G-SV programs (plain layout vs random runs of blanks, tabs, form feeds, CR/LF, both comment kinds, 12 neutral directives, `define/`undef pieces, `resetall between descriptions), token-mutated G-SV programs (mostly rejected) and corpus programs re-laid-out through the lexer; '
+                'each pair is compared on the raw parser and through parse_sv_str (acceptance and layout-free skeleton); distinct by hash of the pair',
+        'evaluations_key': 'comparisons',
+        'floors': {'quick': {'pairs': 5000, 'comparisons': 10000, 'both_accepted': 3000, 'both_rejected': 2000, 'pairs_with_form_feed': 2500, 'pairs_with_directives': 4000},
+                   'thorough': {'pairs': 120000}},
+        'technique': 'runtime monitor: metamorphic comparison of two executions of the real parser on sources that differ only in inter-token trivia, using layout-free tree skeletons',
+        'level_text': 'For thousands of accepted and rejected programs every inter-token white-space run is replaced by a random non-empty trivia run (boundary rules in DESIGN C12 keep token boundaries intact) and acceptance plus the layout-free skeleton of both executions are compared.',
+        'level_note': 'Differences that vanish with an unbounded memo are attributed to finding K3.',
+        'design_ref': '5 / C12',
+    },
 }
